@@ -470,6 +470,25 @@ static void gen_c11(const std::string& tier, std::vector<Work>& W) {
     }, "malformed lists"});
 }
 
+// ------------------------------------------------------------------------------------------- C01: lock-time opcodes under transaction environments T
+static void gen_locktime(const std::string& tier, std::vector<Work>& W) {
+    std::vector<uint32_t> lts = {0, 100, 499999999, 500000000, 0xffffffffu};
+    std::vector<uint32_t> seqs = {0, 10, 0x0040000a, 0x80000000u, 0xffffffffu, 0xfffffffeu};
+    std::vector<int64_t> ns = {0, 1, 10, 11, 100, 101, 499999999, 500000000, 500000001, 0x0040000a, 0x00400009, 0x0040000b, 0x00400000, 65535, 65536 + 10, 0x7fffffff, 0x80000000LL, 0x8000000aLL, 0xffffffffLL, 0x100000000LL, -1, 0x7fffffffffLL};
+    for (uint32_t lt : lts) for (uint32_t seq : seqs) for (int32_t ver : {1, 2}) for (SigVer sv : {SigVer::BASE, SigVer::WITNESS_V0}) {
+        W.push_back({[=](Violations& V, Stats2& S) {
+            Ctx c = make_ctx(2, 1, 1, 5000, sv, ver, lt, seq);
+            for (int64_t n : ns) for (uint8_t opc : {uint8_t(0xb1), uint8_t(0xb2)}) for (uint32_t fl : std::vector<uint32_t>{F_CLTV | F_CSV, F_CLTV | F_CSV | F_MINIMALDATA, 0u, F_STANDARD}) {
+                bytes sc = C({push_num(n), O(opc)});
+                compare_explicit(c, sc, {}, fl, std::string(opc == 0xb1 ? "CHECKLOCKTIMEVERIFY" : "CHECKSEQUENCEVERIFY") + " operand " + std::to_string(n), std::string("locktime:") + (opc == 0xb1 ? "CLTV" : "CSV"), V, S, {}, true, false, "c01");
+                // non-minimal and over-long operands
+                bytes raw = num_encode(n); raw.push_back(0x00);
+                if (raw.size() <= 7) { bytes sc2 = C({push_raw(raw), O(opc)}); compare_explicit(c, sc2, {}, fl, "padded operand " + hex(raw), std::string("locktime-padded:") + (opc == 0xb1 ? "CLTV" : "CSV"), V, S, {}, true, false, "c01"); }
+            }
+        }, "locktime env"});
+    }
+}
+
 int main(int argc, char** argv) {
     Args a(argc, argv);
     ECCVerifyHandle ecc;
@@ -496,6 +515,7 @@ int main(int argc, char** argv) {
     }
     std::vector<Work> W;
     if (mode == "c02") { gen_c02_ecdsa(tier, W); gen_c02_schnorr(tier, W); }
+    else if (mode == "locktime") gen_locktime(tier, W);
     else gen_c11(tier, W);
     Stats2 S;
     std::string tmp = make_tmpdir();
